@@ -83,6 +83,7 @@ func vC16Mismatch(c *vCtx) {
 	kinds = append(kinds, vSerTextKind(), vSerMetaKind(), vSerHybridKind(true, true, true), vSerHybridKind(false, true, false))
 	streams := make([][]byte, len(kinds))
 	empties := make([][]byte, len(kinds))
+	untrained := make([][]byte, len(kinds))
 	for i, k := range kinds {
 		var b bytes.Buffer
 		if _, err := k.write(vSerPopulated(k), &b); err != nil {
@@ -92,6 +93,9 @@ func vC16Mismatch(c *vCtx) {
 		var e bytes.Buffer
 		k.write(k.source(), &e)
 		empties[i] = e.Bytes()
+		var u bytes.Buffer
+		k.write(k.fresh(), &u)
+		untrained[i] = u.Bytes()
 	}
 	try := func(what, cfgS string, recv any, read func(any, io.Reader) (int64, error), data []byte) {
 		c.Evaluations++
@@ -121,6 +125,7 @@ func vC16Mismatch(c *vCtx) {
 			}
 			try("other-kind", fmt.Sprintf("stream of %s -> receiver %s", a.name, b.name), b.fresh(), b.read, streams[i])
 			try("other-kind", fmt.Sprintf("empty stream of %s -> receiver %s", a.name, b.name), b.fresh(), b.read, empties[i])
+			try("other-kind", fmt.Sprintf("untrained stream of %s -> receiver %s", a.name, b.name), b.fresh(), b.read, untrained[i])
 		}
 	}
 	// (b) receiver differing from the writer in exactly one construction parameter
@@ -129,6 +134,9 @@ func vC16Mismatch(c *vCtx) {
 			k := vSerVecKind(v.cfg)
 			try("parameter:"+v.what, fmt.Sprintf("stream of %s -> receiver %s", kinds[i].name, k.name), k.fresh(), k.read, streams[i])
 			try("parameter:"+v.what, fmt.Sprintf("empty stream of %s -> receiver %s", kinds[i].name, k.name), k.fresh(), k.read, empties[i])
+			try("parameter:"+v.what, fmt.Sprintf("untrained stream of %s -> receiver %s", kinds[i].name, k.name), k.fresh(), k.read, untrained[i])
+			// and a trained receiver (ReadFrom replaces the state of a used index too)
+			try("parameter:"+v.what, fmt.Sprintf("stream of %s -> trained receiver %s", kinds[i].name, k.name), k.source(), k.read, streams[i])
 		}
 	}
 	// hybrid presence bits
@@ -173,7 +181,7 @@ func vC16Mismatch(c *vCtx) {
 func init() {
 	vRegister(&vCheck{
 		ID: "C16", Level: "fault_enumeration", Engine: "domainmc",
-		Rule:        "(1) for each of the eight kinds (several parameterisations) and EVERY state reached by a BFS over Add/Remove/Flush histories (plus untrained/empty): every prefix length 0..len-1 of the serialisation is fed to a fresh receiver with matching parameters and must be rejected with an error (no panic, no success); (2) mismatch matrix: every (stream of kind A, receiver of kind B != A) pair for populated and empty streams, every receiver differing from the writer in exactly one construction parameter (dimension, metric, M, ef, nlist, nbits, each hybrid sub-index presence bit), version field patched to 0 / 2 / 0xFFFFFFFF, corrupted magic; (3) store: every prefix (incl. empty and missing) of each component file of a segment (see store shard). Non-trivial = distinct (kind, stream, prefix length) and distinct mismatch cases; all are fault cases by construction.",
+		Rule:        "(1) for each of the eight kinds (several parameterisations) and EVERY state reached by a BFS over Add/Remove/Flush histories (plus untrained/empty): every prefix length 0..len-1 of the serialisation is fed to a fresh receiver with matching parameters and must be rejected with an error (no panic, no success); (2) mismatch matrix: every (stream of kind A, receiver of kind B != A) pair for populated, trained-empty and untrained streams, every receiver differing from the writer in exactly one construction parameter (dimension, metric, M, ef, nlist, nbits, each hybrid sub-index presence bit), version field patched to 0 / 2 / 0xFFFFFFFF, corrupted magic; (3) store: every prefix (incl. empty and missing) of each component file of a segment (see store shard). Non-trivial = distinct (kind, stream, prefix length) and distinct mismatch cases; all are fault cases by construction.",
 		Assumptions: []string{"all prefixes are enumerated (streams here are < 8 KB)", "allocation driven by a corrupt count cannot occur for prefixes of valid streams"},
 		Shards: func(tier string) []vShard {
 			sh := vSerShards("c16", tier)
